@@ -824,6 +824,11 @@ func (p *Program) callMods(fm *funcMods, cc *ssa.CallCommon, paramIdx map[*ssa.P
 	}
 	callee := cc.StaticCallee()
 	if callee == nil {
+		if lg := sx.logFieldOf(cc.Value); lg != "" {
+			fm.ms.keys[p.noteKey("L:"+lg, keyDesc{kind: 'L'})] = true
+			fm.ms.keys[p.noteKey("N:"+lg, keyDesc{kind: 'L'})] = true
+			return
+		}
 		if !sx.isPureField(cc.Value) {
 			fm.ms.all = true
 		}
